@@ -103,6 +103,8 @@ type Engine struct {
 	lastPanic string
 	clockMax  T
 	clockBase *T
+	thr       *threadLog
+	curIns    ssa.Instruction
 	wantWitness bool
 	panicAcc  T
 	panicMsgs []string
@@ -384,6 +386,7 @@ func (e *Engine) call(fn *ssa.Function, args []Value, bind []Value) Value {
 		}
 		for _, ins := range b.Instrs {
 			e.step()
+			e.curIns = ins
 			switch x := ins.(type) {
 			case *ssa.Phi:
 				if arrs != nil {
@@ -554,6 +557,7 @@ func (e *Engine) mapFind(m *MapObj, k Value) int {
 	if m == nil {
 		return -1
 	}
+	e.logMap(m, false)
 	cs := e.mapFindConds(m, k)
 	opts := make([]T, len(cs)+1)
 	none := tbool(true)
@@ -589,6 +593,7 @@ func (e *Engine) mapStore(m *MapObj, k, v Value, guard T) {
 	if !guard.isTrue() {
 		panic(engineError{"guarded map update unsupported"})
 	}
+	e.logMap(m, true)
 	i := e.mapFind(m, k)
 	if i < 0 {
 		l := newLoc(m.vt)
@@ -604,6 +609,7 @@ func (e *Engine) mapDelete(m *MapObj, k Value) {
 	if m == nil {
 		return
 	}
+	e.logMap(m, true)
 	i := e.mapFind(m, k)
 	if i >= 0 {
 		m.keys = append(m.keys[:i:i], m.keys[i+1:]...)
